@@ -15,6 +15,7 @@ helpers (`Univers/Text/Str.lean`).
 `<items>` = `-` or comma-separated `star` | `<cmpr>:<hex version text>`.
 -/
 import Univers.Text.Vers
+import Univers.Text.EndToEnd
 import Univers.Driver.Util
 import Univers.Driver.Vers
 import Univers.Scheme.Gem
@@ -103,6 +104,31 @@ def layerA : List (String × (List Char → Except TErr (List Char))) := [
   ("ConanVersion", fun s => liftVer (conanE (Conan.construct s)) Conan.str),
   ("GenericVersion", fun s => liftVer (genericE (Generic.construct s)) Generic.str)]
 
+/-- the Layer-A models as `TextScheme`s (constructor, printer, operators), by version class name -/
+def liftCon {R : Type} (r : Except (Option String) R) : Except TErr R :=
+  match r with
+  | .ok v => .ok v
+  | .error none => .error .InvalidVersion
+  | .error (some n) => .error (terrOfName n)
+
+def textSchemes : List (String × EndToEnd.TextScheme) := [
+  ("RubygemsVersion", ⟨Gem.Raw, fun s => liftCon (gemE (Gem.construct s)), Gem.str, Gem.verOps⟩),
+  ("SemverVersion", ⟨Semver.Raw, fun s => liftCon (semverE (Semver.construct s)), Semver.str, Semver.verOps⟩),
+  ("NginxVersion", ⟨Semver.Raw, fun s => liftCon (semverE (Semver.constructNginx s)), Semver.str, Semver.verOps⟩),
+  ("GolangVersion", ⟨Semver.Raw, fun s => liftCon (semverE (Semver.constructGolang s)), Semver.str, Semver.verOps⟩),
+  ("ComposerVersion", ⟨Semver.Raw, fun s => liftCon (semverE (Semver.constructComposer s)), Semver.str, Semver.verOps⟩),
+  ("OpensslVersion", ⟨Openssl.Raw, fun s => liftCon (opensslE (Openssl.construct s)), Openssl.str, Openssl.verOps⟩),
+  ("DebianVersion", ⟨Deb.Raw, fun s => liftCon (debE (Deb.construct s)), Deb.str, Deb.verOps⟩),
+  ("RpmVersion", ⟨Rpm.Raw, fun s => liftCon (rpmE (Rpm.construct s)), Rpm.str, Rpm.verOps⟩),
+  ("ArchLinuxVersion", ⟨Alpm.Raw, fun s => liftCon (alpmE (Alpm.construct s)), Alpm.str, Alpm.verOps⟩),
+  ("GentooVersion", ⟨Gentoo.Raw, fun s => liftCon (gentooE (Gentoo.construct s)), Gentoo.str, Gentoo.verOps⟩),
+  ("AlpineLinuxVersion", ⟨Gentoo.Raw, fun s => liftCon (gentooE (Gentoo.constructAlpine s)), Gentoo.str, Gentoo.verOps⟩),
+  ("PypiVersion", ⟨Pypi.Raw, fun s => liftCon (pypiE (Pypi.construct s)), Pypi.str, Pypi.verOps⟩),
+  ("MavenVersion", ⟨Maven.Raw, fun s => liftCon (mavenE (Maven.construct s)), Maven.str, Maven.verOps⟩),
+  ("NugetVersion", ⟨Nuget.Raw, fun s => liftCon (nugetE (Nuget.construct s)), Nuget.str, Nuget.verOps⟩),
+  ("ConanVersion", ⟨Conan.Raw, fun s => liftCon (conanE (Conan.construct s)), Conan.str, Conan.verOps⟩),
+  ("GenericVersion", ⟨Generic.Raw, fun s => liftCon (genericE (Generic.construct s)), Generic.str, Generic.verOps⟩)]
+
 /-- the stub: every (non-empty) text is accepted unchanged -/
 def stubVer (s : List Char) : Except TErr (List Char) := .ok s
 
@@ -156,6 +182,18 @@ def fromstrAnswer (t : List Char) : String :=
               | r => rawItem r
             "raw:" ++ String.ofList scheme ++ ":" ++ ",".intercalate (texts.map item)
 
+/-- `e2e <hex vers> <hex version>`: `version_class(x) in VersionRange.from_string(t)` -/
+def e2eAnswer (t x : List Char) : String :=
+  match Vers.header t with
+  | .error e => "err:" ++ e.name
+  | .ok (_, vc, _) =>
+    match textSchemes.lookup vc with
+    | none => "nomodel"
+    | some T =>
+      match EndToEnd.contains T textMkVer t x with
+      | .ok b => "ok:" ++ boolStr b
+      | .error e => "err:" ++ e.name
+
 def hexList (l : List (List Char)) : String :=
   if l.isEmpty then "[]" else ",".intercalate (l.map hex)
 
@@ -196,6 +234,7 @@ def stropAnswer : List String → Option String
 
 def textVersCmd : List String → Option String
   | ["fromstr", h] => some (fromstrAnswer (unhex h))
+  | ["e2e", t, x] => some (e2eAnswer (unhex t) (unhex x))
   | ["tostr", scheme, items] => do
       let cs ← parseTCons items
       pure (hex (Vers.toString scheme.toList cs))
